@@ -49,30 +49,48 @@ theorem emd_zero_iters (lossgrad : List ℝ → ℝ × List ℝ) (x0 : List ℝ)
   exact init_map_exp x0 total hx hne ht
 
 /-- **conditional descent (as written)**: one iteration never increases the stored loss when the
-acceptance threshold `½·α·⟨dL, P₀ − Q⟩` (computed with the *stale* `P₀`) is nonnegative; when it is
-negative an increase can be accepted — the unconditional "never worse than uniform" is therefore
-not derivable from the acceptance rule and is checked per run -/
+acceptance threshold `½·α·⟨dL, P₀ − Q⟩` (centred gradient, *stale* `P₀`) is nonnegative; when it is
+negative an increase can be accepted (`emd_step_may_increase`) — the unconditional "never worse than
+the start" (`emd_never_worse_than_start`) needs the Lyapunov argument, not per-step descent -/
 theorem emd_step_descent (lossgrad : List ℝ → ℝ × List ℝ) (total : ℝ) (P0 : List ℝ) (s : EmdState ℝ) :
-    let logQ0 := List.zipWith (fun lp d => lp - s.alpha * d) s.logP s.dL
+    let dL := center s.dL
+    let logQ0 := List.zipWith (fun lp d => lp - s.alpha * d) s.logP dL
     let shift := Real.log total - Real.log ((logQ0.map Real.exp).sum)
     let Q := (logQ0.map (fun v => v + shift)).map Real.exp
-    0 ≤ (1 / 2 : ℝ) * s.alpha * dotv s.dL (List.zipWith (· - ·) P0 Q) →
+    0 ≤ (1 / 2 : ℝ) * s.alpha * dotv dL (List.zipWith (· - ·) P0 Q) →
     (emdStep lossgrad total P0 s).loss ≤ s.loss := by
-  intro logQ0' shift Q hthr
-  rcases emdStep_cases lossgrad total P0 s with ⟨_, e2, _, e4⟩ | ⟨_, e2, _⟩
+  intro dL logQ0' shift Q hthr
+  rcases emdStep_cases lossgrad total P0 s with ⟨_, e2, _, _, e4⟩ | ⟨_, e2, _⟩
   · rw [e2]
-    have hQ : Q = (logQ total s).map Real.exp := rfl
+    have hQ : (1 / 2 : ℝ) * s.alpha * dotv dL (List.zipWith (· - ·) P0 Q) = thr total P0 s := rfl
     rw [hQ] at hthr
     linarith
   · rw [e2]
 
-/-- the stored loss is always the objective at the stored point -/
+/-- the invariant of the loop on the stored loss and gradient: the stored loss is the objective at
+the stored point, and the stored gradient is the gradient there up to centring (after a rejected
+step the state holds the centred gradient; `center` is idempotent) -/
+def Consistent (lossgrad : List ℝ → ℝ × List ℝ) (s : EmdState ℝ) : Prop :=
+  s.loss = (lossgrad (s.logP.map Real.exp)).1 ∧
+  center s.dL = center (lossgrad (s.logP.map Real.exp)).2
+
+/-- the stored loss is always the objective at the stored point (and the stored gradient its
+gradient, up to centring) -/
 theorem emd_step_loss_consistent (lossgrad : List ℝ → ℝ × List ℝ) (total : ℝ) (P0 : List ℝ) (s : EmdState ℝ)
-    (h : s.loss = (lossgrad (s.logP.map Real.exp)).1 ∧ s.dL = (lossgrad (s.logP.map Real.exp)).2) :
+    (h : s.loss = (lossgrad (s.logP.map Real.exp)).1 ∧
+      center s.dL = center (lossgrad (s.logP.map Real.exp)).2) :
     (emdStep lossgrad total P0 s).loss = (lossgrad ((emdStep lossgrad total P0 s).logP.map Real.exp)).1 ∧
-    (emdStep lossgrad total P0 s).dL = (lossgrad ((emdStep lossgrad total P0 s).logP.map Real.exp)).2 := by
-  rcases emdStep_cases lossgrad total P0 s with ⟨e1, e2, e3, _⟩ | ⟨e1, e2, e3⟩
+    center (emdStep lossgrad total P0 s).dL
+      = center (lossgrad ((emdStep lossgrad total P0 s).logP.map Real.exp)).2 := by
+  rcases emdStep_cases lossgrad total P0 s with ⟨e1, e2, e3, _⟩ | ⟨e1, e2, e3, _⟩
   · rw [e1, e2, e3]; exact ⟨rfl, rfl⟩
-  · rw [e1, e2, e3]; exact h
+  · rw [e1, e2, e3, center_idem]; exact h
+
+/-- the step size stays positive (it starts at 1 and is only doubled or halved) -/
+theorem emd_step_alpha_pos (lossgrad : List ℝ → ℝ × List ℝ) (total : ℝ) (P0 : List ℝ) (s : EmdState ℝ)
+    (h : 0 < s.alpha) : 0 < (emdStep lossgrad total P0 s).alpha := by
+  rcases emdStep_cases lossgrad total P0 s with ⟨_, _, _, e4, _⟩ | ⟨_, _, _, e4⟩
+  · rw [e4]; split <;> linarith
+  · rw [e4]; linarith
 
 end PGM.Public
